@@ -196,7 +196,9 @@ def obligations(tier):
                     if nspans == 2 and not T and h not in ("slice", "rc_slice"):
                         continue
                     for use_offset in (False, True):
-                        if use_offset and not T and (nspans == 2 or not partial):
+                        if use_offset and not T and (nspans == 2 or not partial or h in ("slice_slice", "slice_rc")):
+                            continue
+                        if not T and not partial and h in ("slice_slice", "slice_rc"):
                             continue
                         nm = f"{h}/{'minus' if minus else 'plus'}/{'partial' if partial else 'inside'}/n{nspans}/off{int(use_offset)}"
                         obs.append(Ob(nm, __name__, "mk", {"history": h, "minus": minus, "nspans": nspans, "partial": partial, "use_offset": use_offset}, timeout=1800, twins=("end", "hit"), group=h))
